@@ -238,6 +238,12 @@ func ErrClass(err error) (string, string) {
 		return "<ExceptionInfo:nil type>", e.Error()
 	case *py.Exception:
 		return e.Type().Name, e.Error()
+	case *py.Type:
+		// gpython returns the exception class itself as the error (e.g. py.StopIteration)
+		if e != nil && e.Flags&py.TPFLAGS_BASE_EXC_SUBCLASS != 0 {
+			return e.Name, e.Name
+		}
+		return fmt.Sprintf("<goerror:%T>", err), err.Error()
 	default:
 		return fmt.Sprintf("<goerror:%T>", err), err.Error()
 	}
